@@ -17,6 +17,11 @@ func vSymFrame(i int, nLens int) vFrame {
 	copy(f.key[:], vBytes("key", 4))
 	n := vLenSet[vChoose("len", nLens)]
 	f.payload = vBytes("payload", n)
+	if vParam("huge", 0) == 1 && vChoose("hugeLen", 2) == 1 {
+		// the frame declares a 64-bit length with the top bit set instead
+		f.hugeLen = true
+		f.payload = nil
+	}
 	return f
 }
 
